@@ -1,1 +1,683 @@
-(* stub: to be written *)
+(* Determinism (property C14): export is deterministic and independent of history.
+
+   What a theorem can carry here.  CPython's hash order and id() values are runtime facts.  The logic
+   that can be modelled is
+     (A) every place where an optimizer pass ITERATES a Python set of nodes: the loop is a fold of a
+         per-element action over a LIST that stands for the set's iteration order; the result must be
+         EQUAL (not merely equivalent) for every permutation of that list;
+     (B) which state feeds generated names and whether it is per conversion or process wide;
+     (C) the memo table of lowering_dispatch._lower_accepts_params.
+
+   Set-iteration sites of /repo/jax2onnx/converter/ir_optimizations.py (the harness re-derives this list
+   from the AST on every run and fails on a site that is not listed here):
+
+   S1  remove_redundant_transpose_add_forests_ir :1280  for out_transpose in output_transposes:
+         replace_all_uses_with(t_out, t_in)                       model site_rauw            PROVED
+   S2  ... :1288  graph.remove(list(output_transposes))           model remove_producers     PROVED
+   S3  ... :1293  for in_transpose in input_transposes: reads the graph only, appends to the list
+         removable_inputs, then graph.remove(removable_inputs)    model site_collect_remove  PROVED
+   S4  remove_redundant_transpose_pairs_ir :1474  graph.remove(list(to_remove))
+                                                                  model remove_producers     PROVED
+   S5  ... :1497  for t_node in transpose_nodes: all perms present and equal (break on failure)
+                                                                  model perm_loop            PROVED
+   S6  ... :1512  for node in elem_nodes: read-only check with break, collects the set
+         output_transposes                                        model check_loop/collect   PROVED
+   S7  ... :1540  for t_node in transpose_nodes: builds dict trans_in_map[t_out] = t_src
+                                                                  model dict_of              PROVED
+   S8  ... :1546  for node in elem_nodes: rewire own inputs through trans_in_map, THEN
+         _refresh_elementwise_output_shape(node), which reads the CURRENT shapes of the node's inputs -
+         among them outputs of other members of elem_nodes        model site_refresh         REFUTED
+         (order matters whenever one member feeds another member, which is the normal case because
+          elem_nodes is a connected elementwise DAG; pass 0 of the same function does the same refresh
+          in graph order `for node in nodes: if node in elem_nodes` (:1640) - this site does not.)
+   S9  ... :1554  for t_out_node in output_transposes: replace_all_uses_with(t_out, t_in)
+                                                                  model site_rauw            PROVED
+   S10 ... :1565  graph.remove(list(output_transposes))           model remove_producers     PROVED
+   S11 ... :1569  for t_node in transpose_nodes: graph.remove(t_node) when t_out has no consumer in the
+         snapshot live_nodes taken BEFORE the loop               model site_remove_unused   PROVED
+   S12 ... :1615  for node in elem_nodes: read-only check with break      model check_loop   PROVED
+       ... :1635  for node in elem_nodes: node.replace_input_with(idx, t1_in) on the node's own inputs
+         (the refresh is done afterwards in graph order)          model site_rewire          PROVED
+   S13 inline_dropout_training_mode_constants_ir :2568  for not_node in del_not_nodes: reads uses only,
+         appends to final_del_nodes, then graph.remove(final_del_nodes)
+                                                                  model site_collect_remove  PROVED
+   S14 plugins/plugin_system.py:952  FunctionPlugin._lower_and_call  for pname in call_param_names:
+         (a set of STRINGS - order is a function of PYTHONHASHSEED) appends to the lists that become
+         graph inputs / function-call inputs                      model site_append          REFUTED
+         (order matters as soon as two names pass the filter)
+   S15 converter/function_scope.py:46  FunctionRegistry.all  list(self._defs.values()): a dict keyed by
+         FunctionKey - dicts iterate in INSERTION order, i.e. the order of first lowering; no set.
+   Sets used only for membership tests (allowed_nodes, visited_values, add_set, visited_adds,
+   chain_nodes, del_not_names, seen, current_node_ids): membership is order-free (mem_perm).
+
+   NOT in the state of these models: onnx_ir keeps, per value, an insertion-ordered dict of its uses;
+   Value.consumers() exposes that order.  Two replace_all_uses_with calls that redirect uses to the
+   same new value leave that dict in an order that depends on the call order.  The serialized model
+   does not contain it; later matching that scans consumers() could observe it.  This residue, like
+   CPython's hash order itself, is covered only by the harness sweep (subprocesses under many
+   PYTHONHASHSEEDs / histories and with the iteration order of the node sets forced). *)
+From Coq Require Import String List Arith Lia Bool PeanoNat Permutation.
+From J2O Require Import Graph.
+Import ListNotations.
+
+(* ------------------------------------------------------------------------------------------- *)
+(** * A. order-insensitivity framework                                                          *)
+(* ------------------------------------------------------------------------------------------- *)
+Section Fold.
+Variables (A S : Type) (act : A -> S -> S).
+
+(* `for a in <set>: state = act(a, state)` with the set iterated in the order of the list *)
+Definition run_order (l : list A) (s0 : S) : S := fold_left (fun s a => act a s) l s0.
+
+(* commutation is needed only between members of the set *)
+Theorem fold_order_irrelevant_in : forall l l', Permutation l l' ->
+  (forall a b s, In a l -> In b l -> act a (act b s) = act b (act a s)) ->
+  forall s0, run_order l s0 = run_order l' s0.
+Proof.
+  unfold run_order. induction 1 as [| x l l' HP IH | x y l | l l' l'' HP1 IH1 HP2 IH2]; intros Hc s0; simpl.
+  - reflexivity.
+  - apply IH. intros a b s Ha Hb. apply Hc; now right.
+  - rewrite (Hc x y s0); [reflexivity | right; now left | now left].
+  - rewrite IH1 by exact Hc. apply IH2. intros a b s Ha Hb.
+    apply Hc; eapply Permutation_in; try eassumption; now apply Permutation_sym.
+Qed.
+
+Theorem fold_order_irrelevant :
+  (forall a b s, act a (act b s) = act b (act a s)) ->
+  forall l l', Permutation l l' -> forall s0, run_order l s0 = run_order l' s0.
+Proof. intros Hc l l' HP s0. apply fold_order_irrelevant_in; auto. Qed.
+End Fold.
+Arguments run_order {A S} act l s0.
+
+(* membership tests do not see the order *)
+Fixpoint mem (x : name) (l : list name) : bool :=
+  match l with [] => false | y :: r => Nat.eqb x y || mem x r end.
+
+Lemma mem_In x l : mem x l = true <-> In x l.
+Proof.
+  induction l as [|y r IH]; simpl; [split; [discriminate | tauto]|].
+  rewrite orb_true_iff, Nat.eqb_eq, IH. split; intros [H|H]; auto.
+Qed.
+
+Lemma mem_perm x l l' : Permutation l l' -> mem x l = mem x l'.
+Proof.
+  intro HP. destruct (mem x l) eqn:E, (mem x l') eqn:E'; auto.
+  - apply mem_In in E. apply (Permutation_in _ HP) in E. apply mem_In in E. congruence.
+  - apply mem_In in E'. apply (Permutation_in _ (Permutation_sym HP)) in E'. apply mem_In in E'. congruence.
+Qed.
+
+Lemma filter_perm {A} (p : A -> bool) l l' : Permutation l l' -> Permutation (filter p l) (filter p l').
+Proof.
+  induction 1 as [| x l l' HP IH | x y l | l l' l'' HP1 IH1 HP2 IH2]; simpl.
+  - constructor.
+  - destruct (p x); auto.
+  - destruct (p x), (p y); auto using Permutation_refl. apply perm_swap.
+  - eapply Permutation_trans; eassumption.
+Qed.
+
+Lemma forallb_perm {A} (p : A -> bool) l l' : Permutation l l' -> forallb p l = forallb p l'.
+Proof.
+  induction 1 as [| x l l' HP IH | x y l | l l' l'' HP1 IH1 HP2 IH2]; simpl; auto.
+  - now rewrite IH.
+  - destruct (p x), (p y); reflexivity.
+  - congruence.
+Qed.
+
+(* ------------------------------------------------------------------------------------------- *)
+(** ** S2 S4 S10 (and the removal half of S3 S13): graph.remove(list(<set>))                   *)
+(* onnx_ir Graph.remove(nodes): nodes_set = frozenset(nodes); every member is unlinked from the doubly
+   linked node list; the remaining nodes keep their order.  Nodes are identified by the values they
+   define (SSA: one producer per value). *)
+Definition defines_any (dead : list name) (n : node) : bool := existsb (fun o => mem o dead) (n_outs n).
+Definition remove_producers (dead : list name) (g : graph) : graph :=
+  mkGraph (filter (fun n => negb (defines_any dead n)) (g_nodes g)) (g_outputs g).
+
+Lemma defines_any_perm dead dead' n : Permutation dead dead' -> defines_any dead n = defines_any dead' n.
+Proof.
+  intro HP. unfold defines_any. induction (n_outs n) as [|o r IH]; simpl; auto.
+  now rewrite IH, (mem_perm o _ _ HP).
+Qed.
+
+Theorem remove_list_of_set_order_irrelevant dead dead' g :
+  Permutation dead dead' -> remove_producers dead g = remove_producers dead' g.
+Proof.
+  intro HP. unfold remove_producers. f_equal.
+  apply filter_ext. intro n. now rewrite (defines_any_perm _ _ n HP).
+Qed.
+
+Lemma remove_keeps_order dead g :
+  exists keep, g_nodes (remove_producers dead g) = filter keep (g_nodes g).
+Proof. eexists. reflexivity. Qed.
+
+Lemma filter_comm {A} (p q : A -> bool) l : filter p (filter q l) = filter q (filter p l).
+Proof.
+  induction l as [|x r IH]; simpl; auto.
+  destruct (q x) eqn:Q, (p x) eqn:P; simpl; rewrite ?Q, ?P, IH; reflexivity.
+Qed.
+
+Lemma remove_producers_comm d1 d2 g :
+  remove_producers d1 (remove_producers d2 g) = remove_producers d2 (remove_producers d1 g).
+Proof. unfold remove_producers; simpl. f_equal. apply filter_comm. Qed.
+
+(* ------------------------------------------------------------------------------------------- *)
+(** ** S3 S13: a read-only loop that appends to a list which is then handed to graph.remove     *)
+(* `removable` is evaluated on the graph as it is BEFORE the loop (the loop body does not mutate) *)
+Definition site_collect_remove (removable : name -> bool) (order : list name) (g : graph) : graph :=
+  remove_producers (filter removable order) g.
+
+Theorem site_collect_remove_order_irrelevant removable l l' g :
+  Permutation l l' -> site_collect_remove removable l g = site_collect_remove removable l' g.
+Proof. intro HP. apply remove_list_of_set_order_irrelevant. now apply filter_perm. Qed.
+
+(* ------------------------------------------------------------------------------------------- *)
+(** ** S11: graph.remove(t) inside the loop, guarded by a test against a snapshot               *)
+Definition remove_unused_act (unused_in_snapshot : name -> bool) (t : name) (g : graph) : graph :=
+  if unused_in_snapshot t then remove_producers [t] g else g.
+
+Theorem site_remove_unused_order_irrelevant unused l l' g :
+  Permutation l l' -> run_order (remove_unused_act unused) l g = run_order (remove_unused_act unused) l' g.
+Proof.
+  intro HP. apply fold_order_irrelevant; auto. intros a b s. unfold remove_unused_act.
+  destruct (unused a), (unused b); auto. apply remove_producers_comm.
+Qed.
+
+(* ------------------------------------------------------------------------------------------- *)
+(** ** S1 S9: replace_all_uses_with(t_out, t_in) for each output transpose                      *)
+Definition rauw_act (p : name * name) (g : graph) : graph := replace_all_uses (fst p) (snd p) g.
+
+(* the exact side condition for two members: distinct olds, and no new is the other's old *)
+Definition rauw_compat (a b : name * name) : Prop :=
+  fst a <> fst b /\ snd a <> fst b /\ snd b <> fst a.
+
+Lemma rn_comm o1 n1 o2 n2 x : o1 <> o2 -> n1 <> o2 -> n2 <> o1 ->
+  rn o1 n1 (rn o2 n2 x) = rn o2 n2 (rn o1 n1 x).
+Proof.
+  intros H1 H2 H3. unfold rn.
+  destruct (Nat.eqb_spec x o2), (Nat.eqb_spec x o1); subst;
+    repeat match goal with
+           | |- context [Nat.eqb ?a ?b] => destruct (Nat.eqb_spec a b); subst
+           end; congruence.
+Qed.
+
+Lemma rauw_commute a b g : rauw_compat a b -> rauw_act a (rauw_act b g) = rauw_act b (rauw_act a g).
+Proof.
+  intros (H1 & H2 & H3). destruct a as [o1 n1], b as [o2 n2]; simpl in *.
+  unfold rauw_act, replace_all_uses; simpl. f_equal.
+  - rewrite !map_map. apply map_ext. intro n. unfold subst_node; simpl. f_equal;
+      rewrite !map_map; apply map_ext; intro x; apply rn_comm; auto.
+  - rewrite !map_map. apply map_ext. intro x. apply rn_comm; auto.
+Qed.
+
+Theorem site_rauw_order_irrelevant l l' g :
+  (forall a b, In a l -> In b l -> a = b \/ rauw_compat a b) ->
+  Permutation l l' -> run_order rauw_act l g = run_order rauw_act l' g.
+Proof.
+  intros Hc HP. apply fold_order_irrelevant_in; auto. intros a b s Ha Hb.
+  destruct (Hc a b Ha Hb) as [-> | H]; [reflexivity | now apply rauw_commute].
+Qed.
+
+(* the side condition as the passes establish it: the olds are outputs of DISTINCT Transpose nodes
+   (SSA: distinct values), every new is the output of an Add / elementwise node - a value has one
+   producer and Transpose is not an elementwise op, so no new is an old.  Guaranteed by the matching
+   logic of _collect_add_transpose_forest (S1) and of the consumer scan at :1512-1529 (S9). *)
+Lemma rauw_side_condition l :
+  NoDup (map fst l) -> (forall a b, In a l -> In b l -> snd a <> fst b) ->
+  forall a b, In a l -> In b l -> a = b \/ rauw_compat a b.
+Proof.
+  intros Hnd Hdis a b Ha Hb.
+  destruct (Nat.eq_dec (fst a) (fst b)) as [E|NE].
+  - left. clear Hdis. induction l as [|c r IH]; [destruct Ha|]. simpl in Hnd. inversion Hnd as [|? ? Hnot Hnd']; subst.
+    destruct Ha as [->|Ha], Hb as [->|Hb]; auto.
+    + exfalso. apply Hnot. rewrite E. now apply in_map.
+    + exfalso. apply Hnot. rewrite <- E. now apply in_map.
+  - right. repeat split; auto.
+Qed.
+
+(* the condition is tight: when one action's new IS the other's old the order is visible *)
+Example rauw_order_matters :
+  let g := mkGraph [mkNode "Relu"%string [] [1] [] [5]] [1] in
+  run_order rauw_act [(1, 2); (2, 3)] g <> run_order rauw_act [(2, 3); (1, 2)] g.
+Proof. vm_compute. discriminate. Qed.
+
+(* ------------------------------------------------------------------------------------------- *)
+(** ** S5: all source transposes carry the same permutation (loop with break)                   *)
+(* a permutation attribute is an interned code; None = attribute missing *)
+Definition perm_state := (option nat * bool)%type.          (* (perm1, ok) *)
+Definition perm_step (p : option nat) (st : perm_state) : perm_state :=
+  let '(p1, ok) := st in
+  if ok then match p with
+             | None => (p1, false)
+             | Some q => match p1 with
+                         | None => (Some q, true)
+                         | Some q1 => if Nat.eqb q1 q then (p1, true) else (p1, false)
+                         end
+             end
+  else st.                                                   (* after `break` nothing changes *)
+(* what the pass reads afterwards: `if not ok or perm1 is None: continue`, else perm1 *)
+Definition perm_result (st : perm_state) : option nat := if snd st then fst st else None.
+Definition perm_loop (l : list (option nat)) : option nat := perm_result (run_order perm_step l (None, true)).
+
+Lemma perm_loop_frozen l p1 : fold_left (fun s a => perm_step a s) l (p1, false) = (p1, false).
+Proof. induction l as [|x r IH]; simpl; auto. Qed.
+
+Lemma perm_loop_from_some l q : perm_result (fold_left (fun s a => perm_step a s) l (Some q, true)) =
+  if forallb (fun x => match x with Some y => Nat.eqb q y | None => false end) l then Some q else None.
+Proof.
+  induction l as [|x r IH]; simpl; auto.
+  destruct x as [y|]; simpl.
+  - destruct (Nat.eqb q y); simpl; [apply IH | now rewrite perm_loop_frozen].
+  - now rewrite perm_loop_frozen.
+Qed.
+
+Lemma perm_loop_spec l q : perm_loop l = Some q <-> (l <> [] /\ Forall (fun x => x = Some q) l).
+Proof.
+  unfold perm_loop, run_order. destruct l as [|x r]; simpl.
+  - split; [discriminate | intros [H _]; congruence].
+  - destruct x as [y|]; simpl.
+    + rewrite perm_loop_from_some.
+      destruct (forallb _ r) eqn:F.
+      * rewrite forallb_forall in F. split.
+        -- intro E; injection E as <-. split; [discriminate|]. constructor; auto.
+           apply Forall_forall. intros x Hx. specialize (F x Hx). destruct x; [|discriminate].
+           apply Nat.eqb_eq in F. now subst.
+        -- intros [_ H]. inversion H; subst. congruence.
+      * split; [discriminate|]. intros [_ H]. inversion H as [|? ? E Hr]; subst. injection E as ->.
+        exfalso. assert (X : forallb (fun x => match x with Some y => Nat.eqb q y | None => false end) r = true); [|congruence].
+        apply forallb_forall. intros x Hx. rewrite Forall_forall in Hr. rewrite (Hr x Hx). apply Nat.eqb_refl.
+    + rewrite perm_loop_frozen. simpl. split; [discriminate|]. intros [_ H]. inversion H; discriminate.
+Qed.
+
+Theorem site_perm_agree_order_irrelevant l l' : Permutation l l' -> perm_loop l = perm_loop l'.
+Proof.
+  intro HP.
+  assert (T : forall l l' q, Permutation l l' -> perm_loop l = Some q -> perm_loop l' = Some q).
+  { clear. intros l l' q HP H. apply perm_loop_spec in H. destruct H as [Hne Hall]. apply perm_loop_spec. split.
+    - intro E; subst. apply Permutation_sym, Permutation_nil in HP. congruence.
+    - eapply Permutation_Forall; eassumption. }
+  destruct (perm_loop l) as [q|] eqn:E.
+  - symmetry. eapply T; eauto.
+  - destruct (perm_loop l') as [q|] eqn:E'; auto.
+    rewrite (T l' l q (Permutation_sym HP) E') in E. discriminate.
+Qed.
+
+(* ------------------------------------------------------------------------------------------- *)
+(** ** S6 S12a: read-only check with break; S6 also collects a set                             *)
+(* `good` and `outs` read the graph, which the loop does not mutate.  The loop computes
+   `ok = all(good(n))`; on failure the pass `continue`s and the collected set is discarded. *)
+Fixpoint check_loop {A} (good : A -> bool) (l : list A) : bool :=
+  match l with [] => true | a :: r => if good a then check_loop good r else false (* break *) end.
+
+Lemma check_loop_forallb {A} (good : A -> bool) l : check_loop good l = forallb good l.
+Proof. induction l as [|a r IH]; simpl; auto. destruct (good a); auto. Qed.
+
+Theorem site_check_order_irrelevant {A} (good : A -> bool) l l' :
+  Permutation l l' -> check_loop good l = check_loop good l'.
+Proof. intro HP. rewrite !check_loop_forallb. now apply forallb_perm. Qed.
+
+(* the collected set, as a set: the same members whatever the order (its own iteration order is again
+   arbitrary; it is consumed by S9, S10 and a membership test only) *)
+Definition check_collect {A} (good : A -> bool) (outs : A -> list name) (l : list A) : option (list name) :=
+  if check_loop good l then Some (flat_map outs l) else None.
+
+Theorem site_check_collect_order_irrelevant {A} (good : A -> bool) outs (l l' : list A) :
+  Permutation l l' ->
+  match check_collect good outs l, check_collect good outs l' with
+  | Some s, Some s' => Permutation s s'
+  | None, None => True
+  | _, _ => False
+  end.
+Proof.
+  intro HP. unfold check_collect. rewrite (site_check_order_irrelevant good l l' HP).
+  destruct (check_loop good l'); auto. now apply Permutation_flat_map.
+Qed.
+
+(* ------------------------------------------------------------------------------------------- *)
+(** ** S7: a dict built by iterating the set, keys = outputs of distinct nodes                  *)
+Fixpoint dict_get (k : name) (d : list (name * name)) : option name :=
+  match d with [] => None | (k', v) :: r => if Nat.eqb k k' then Some v else dict_get k r end.
+
+Lemma dict_get_In k v d : NoDup (map fst d) -> In (k, v) d -> dict_get k d = Some v.
+Proof.
+  induction d as [|[k' v'] r IH]; simpl; intros Hnd Hin; [tauto|].
+  inversion Hnd as [|? ? Hnot Hnd']; subst. destruct Hin as [E|Hin].
+  - injection E as -> ->. now rewrite Nat.eqb_refl.
+  - destruct (Nat.eqb k k') eqn:E; [|auto]. apply Nat.eqb_eq in E; subst.
+    exfalso. apply Hnot. change k' with (fst (k', v)). now apply in_map.
+Qed.
+
+Lemma dict_get_Some_In k v d : dict_get k d = Some v -> In (k, v) d.
+Proof.
+  induction d as [|[k' v'] r IH]; simpl; [discriminate|].
+  destruct (Nat.eqb k k') eqn:E; [apply Nat.eqb_eq in E; subst; intro H; injection H as ->; now left | auto].
+Qed.
+
+Theorem site_build_map_order_irrelevant d d' : NoDup (map fst d) -> Permutation d d' ->
+  forall k, dict_get k d = dict_get k d'.
+Proof.
+  intros Hnd HP k.
+  assert (Hnd' : NoDup (map fst d')) by (eapply Permutation_NoDup; [apply Permutation_map; eassumption | assumption]).
+  destruct (dict_get k d) as [v|] eqn:E.
+  - symmetry. apply dict_get_In; auto. eapply Permutation_in; [eassumption|]. now apply dict_get_Some_In.
+  - destruct (dict_get k d') as [v|] eqn:E'; auto.
+    apply dict_get_Some_In in E'. apply (Permutation_in _ (Permutation_sym HP)) in E'.
+    rewrite (dict_get_In _ _ _ Hnd E') in E. discriminate.
+Qed.
+
+(* ------------------------------------------------------------------------------------------- *)
+(** ** S12b (and the rewiring half of S8): each member rewrites ITS OWN inputs                  *)
+Definition defines (o : name) (n : node) : bool := mem o (n_outs n).
+Definition rewire_act (old new : name) (member : name) (g : graph) : graph :=
+  mkGraph (map (fun n => if defines member n then subst_node old new n else n) (g_nodes g)) (g_outputs g).
+
+Lemma subst_node_outs old new n : n_outs (subst_node old new n) = n_outs n.
+Proof. reflexivity. Qed.
+
+Theorem site_rewire_order_irrelevant old new l l' g :
+  Permutation l l' -> run_order (rewire_act old new) l g = run_order (rewire_act old new) l' g.
+Proof.
+  intro HP. apply fold_order_irrelevant; auto. intros a b s. unfold rewire_act; simpl. f_equal.
+  rewrite !map_map. apply map_ext. intro n. unfold defines.
+  destruct (mem a (n_outs n)) eqn:Ea, (mem b (n_outs n)) eqn:Eb; simpl; rewrite ?Ea, ?Eb; reflexivity.
+Qed.
+
+(* ------------------------------------------------------------------------------------------- *)
+(** ** S8: rewire, then refresh the member's output shape from the CURRENT shapes of its inputs *)
+(* state: the shape annotation of every value (interned shape codes).  A member is (out, ins) - its
+   output and its inputs after rewiring.  _refresh_elementwise_output_shape copies the shape of the
+   first non-scalar input and then merges the broadcast of all input shapes: a function [F] of the
+   input shapes as they are at that moment. *)
+Definition shapes := name -> nat.
+Definition set_shape (sh : shapes) (x : name) (v : nat) : shapes := fun y => if Nat.eqb y x then v else sh y.
+
+Section Refresh.
+Variable F : list nat -> nat.
+Definition refresh_act (m : name * list name) (sh : shapes) : shapes :=
+  set_shape sh (fst m) (F (map sh (snd m))).
+
+(* exact side condition for two members: different outputs, neither reads the other's output *)
+Definition refresh_indep (a b : name * list name) : Prop :=
+  fst a <> fst b /\ ~ In (fst a) (snd b) /\ ~ In (fst b) (snd a).
+
+Lemma map_set_shape_other sh x v l : ~ In x l -> map (set_shape sh x v) l = map sh l.
+Proof.
+  intro H. apply map_ext_in. intros y Hy. unfold set_shape.
+  destruct (Nat.eqb y x) eqn:E; auto. apply Nat.eqb_eq in E. subst. tauto.
+Qed.
+
+Lemma refresh_commute_pointwise a b sh : refresh_indep a b ->
+  forall y, refresh_act a (refresh_act b sh) y = refresh_act b (refresh_act a sh) y.
+Proof.
+  intros (H1 & H2 & H3) y. unfold refresh_act.
+  rewrite (map_set_shape_other sh (fst b) _ (snd a) H3), (map_set_shape_other sh (fst a) _ (snd b) H2).
+  unfold set_shape. destruct (Nat.eqb y (fst a)) eqn:Ea, (Nat.eqb y (fst b)) eqn:Eb; auto.
+  apply Nat.eqb_eq in Ea, Eb. congruence.
+Qed.
+End Refresh.
+
+(* shapes as finite tables so that EQUALITY of the resulting annotation is decidable and extensional:
+   the annotation of the values [dom] after the loop *)
+Definition shapes_on (dom : list name) (sh : shapes) : list nat := map sh dom.
+
+Lemma run_refresh_ext F l : forall sh sh', (forall y, sh y = sh' y) ->
+  forall y, run_order (refresh_act F) l sh y = run_order (refresh_act F) l sh' y.
+Proof.
+  induction l as [|m r IH]; simpl; intros sh sh' H y; auto.
+  apply IH. intro z. unfold refresh_act, set_shape.
+  rewrite (map_ext sh sh' H). now rewrite H.
+Qed.
+
+Theorem site_refresh_partial F l l' sh dom :
+  (forall a b, In a l -> In b l -> a = b \/ refresh_indep a b) ->
+  Permutation l l' ->
+  shapes_on dom (run_order (refresh_act F) l sh) = shapes_on dom (run_order (refresh_act F) l' sh).
+Proof.
+  intros Hc HP. unfold shapes_on. apply map_ext. revert sh.
+  induction HP as [| x l l' HP IH | x y l | l l' l'' HP1 IH1 HP2 IH2]; intros sh z; simpl.
+  - reflexivity.
+  - apply IH. intros a b Ha Hb. apply Hc; now right.
+  - apply run_refresh_ext. intro w.
+    destruct (Hc x y (or_intror (or_introl eq_refl)) (or_introl eq_refl)) as [-> | H]; [reflexivity|].
+    now apply refresh_commute_pointwise.
+  - rewrite IH1 by exact Hc. apply IH2. intros a b Ha Hb.
+    apply Hc; eapply Permutation_in; try eassumption; now apply Permutation_sym.
+Qed.
+
+(* the statement at full strength is FALSE of the faithful model: Add (value 10) feeds Exp (value 11);
+   the Add's inputs 1,2 already carry the new (NCHW = code 1) shape, 10 and 11 still carry the old
+   (NHWC = code 0) one.  Refreshing Exp before Add leaves the stale shape on 11. *)
+Definition first_input_shape (l : list nat) : nat := hd 0 l.
+Definition refresh_witness_sh : shapes := fun y => if Nat.eqb y 1 then 1 else if Nat.eqb y 2 then 1 else 0.
+Definition refresh_witness : list (name * list name) := [(10, [1; 2]); (11, [10])].
+
+Theorem site_refresh_order_irrelevant_refuted :
+  exists F l l' sh dom, Permutation l l' /\
+    shapes_on dom (run_order (refresh_act F) l sh) <> shapes_on dom (run_order (refresh_act F) l' sh).
+Proof.
+  exists first_input_shape, refresh_witness, (rev refresh_witness), refresh_witness_sh, [10; 11]. split.
+  - apply Permutation_rev.
+  - vm_compute. discriminate.
+Qed.
+
+(* the graph-order refresh pass 0 uses gives the intended annotation on the witness *)
+Example refresh_topological_ok :
+  shapes_on [10; 11] (run_order (refresh_act first_input_shape) refresh_witness refresh_witness_sh) = [1; 1].
+Proof. reflexivity. Qed.
+Example refresh_reverse_stale :
+  shapes_on [10; 11] (run_order (refresh_act first_input_shape) (rev refresh_witness) refresh_witness_sh) = [1; 0].
+Proof. reflexivity. Qed.
+(* the side condition of the partial theorem is satisfiable with two members (non-vacuity) *)
+Example refresh_indep_example : refresh_indep (10, [1; 2]) (11, [3]).
+Proof. unfold refresh_indep; simpl. repeat split; try lia; intros [H|[H|H]]; try lia; auto; destruct H; lia. Qed.
+
+(* ------------------------------------------------------------------------------------------- *)
+(** ** S14: plugins/plugin_system.py:952  FunctionPlugin._lower_and_call                         *)
+(* `for pname in call_param_names:` iterates a set of STRINGS (the keys of input_params) - its order is
+   a function of PYTHONHASHSEED.  Every name that passes a read-only filter (not yet handled, has a
+   literal, accepted by the callee's signature) is APPENDED to dynamic_entries / capture_items; these
+   lists become, in that order, new graph inputs (ensure_external_flag) and the inputs of the function
+   call.  Appending does not commute: the site is order-insensitive only when at most one name passes
+   the filter.  NOT guaranteed by the code: two call parameters that the callee accepts but that are not
+   passed at the call site both pass. *)
+Definition append_act {A} (keep : A -> bool) (a : A) (acc : list A) : list A :=
+  if keep a then acc ++ [a] else acc.
+
+Lemma append_loop_is_filter {A} (keep : A -> bool) l : forall acc,
+  run_order (append_act keep) l acc = acc ++ filter keep l.
+Proof.
+  unfold run_order. induction l as [|a r IH]; intro acc; simpl; [now rewrite app_nil_r|].
+  rewrite IH. unfold append_act. destruct (keep a); [now rewrite <- app_assoc | reflexivity].
+Qed.
+
+Theorem site_append_order_irrelevant_refuted :
+  exists (keep : nat -> bool) l l' acc, Permutation l l' /\
+    run_order (append_act keep) l acc <> run_order (append_act keep) l' acc.
+Proof.
+  exists (fun _ => true), [1; 2], [2; 1], []. split; [apply perm_swap | vm_compute; discriminate].
+Qed.
+
+Theorem site_append_partial {A} (keep : A -> bool) l l' acc :
+  length (filter keep l) <= 1 -> Permutation l l' ->
+  run_order (append_act keep) l acc = run_order (append_act keep) l' acc.
+Proof.
+  intros Hlen HP. rewrite !append_loop_is_filter. f_equal.
+  pose proof (filter_perm keep l l' HP) as HF.
+  destruct (filter keep l) as [|x [|y r]] eqn:E; simpl in Hlen; try lia.
+  - apply Permutation_nil in HF. now rewrite HF.
+  - apply Permutation_length_1_inv in HF. now rewrite HF.
+Qed.
+
+(* ------------------------------------------------------------------------------------------- *)
+(** * B. generated names are a function of the request                                          *)
+(* ------------------------------------------------------------------------------------------- *)
+(* Three counter families feed generated names:
+     builder : IRBuilder._counters          (ir_builder.py:292, in IRBuilder.__init__)
+     context : IRContext._name_counters     (ir_context.py:219, in IRContext.__init__; the IRBuilder is
+                                             constructed in IRContext.__init__ :191)
+     func    : IRContext._func_name_counters (ir_context.py:229; FunctionPlugin._allocate_friendly_name
+               reads/writes it through getattr(ctx, "_func_name_counters"); child function scopes get the
+               PARENT's dict (plugin_system.py:1010-1012), so the dict is per conversion, not per scope)
+   and to_onnx builds one IRContext per call (conversion_api._create_ir_context).  The scope of every
+   family is a parameter of the model; the harness determines the real scopes from the source on every
+   run (tie counter-scope) and the theorem is an equivalence: names are independent of history IFF
+   every family is per conversion. *)
+Inductive family := Builder | Context | Func.
+Definition family_eqb (a b : family) : bool :=
+  match a, b with Builder, Builder | Context, Context | Func, Func => true | _, _ => false end.
+
+Record scopes := mkScopes { per_conv_builder : bool; per_conv_context : bool; per_conv_func : bool }.
+Definition per_conv (c : scopes) (f : family) : bool :=
+  match f with Builder => per_conv_builder c | Context => per_conv_context c | Func => per_conv_func c end.
+Definition all_per_conversion (c : scopes) : bool := per_conv_builder c && per_conv_context c && per_conv_func c.
+
+(* counter tables: (family, base) -> next index; absent = 0 *)
+Definition ctable := list (family * string * nat).
+Fixpoint ct_get (f : family) (b : string) (t : ctable) : nat :=
+  match t with
+  | [] => 0
+  | (f', b', n) :: r => if family_eqb f f' && String.eqb b b' then n else ct_get f b r
+  end.
+Definition ct_bump (f : family) (b : string) (t : ctable) : ctable := (f, b, S (ct_get f b t)) :: t.
+
+(* a request asks, in an order that is a function of the request, for fresh names *)
+Definition ask := (family * string)%type.
+Definition gname := (family * string * nat)%type.          (* f"{base}_{i}" of that family *)
+
+(* two tables: the one created with the conversion and the one living in the module *)
+Definition fresh (c : scopes) (a : ask) (st : ctable * ctable) : gname * (ctable * ctable) :=
+  let '(loc, glob) := st in let '(f, b) := a in
+  if per_conv c f then ((f, b, ct_get f b loc), (ct_bump f b loc, glob))
+  else ((f, b, ct_get f b glob), (loc, ct_bump f b glob)).
+
+Fixpoint fresh_all (c : scopes) (asks : list ask) (st : ctable * ctable) : list gname * (ctable * ctable) :=
+  match asks with
+  | [] => ([], st)
+  | a :: r => let '(n, st1) := fresh c a st in let '(ns, st2) := fresh_all c r st1 in (n :: ns, st2)
+  end.
+
+(* one conversion: the per-conversion table starts EMPTY (the constructors), the module table is
+   whatever earlier conversions left *)
+Definition convert (c : scopes) (r : list ask) (glob : ctable) : list gname * ctable :=
+  let '(ns, (_, glob')) := fresh_all c r ([], glob) in (ns, glob').
+Definition after_history (c : scopes) (h : list (list ask)) : ctable :=
+  fold_left (fun g r => snd (convert c r g)) h [].
+Definition names_after (c : scopes) (h : list (list ask)) (r : list ask) : list gname :=
+  fst (convert c r (after_history c h)).
+
+Lemma fresh_all_local c : all_per_conversion c = true ->
+  forall asks loc g1 g2, fst (fresh_all c asks (loc, g1)) = fst (fresh_all c asks (loc, g2)).
+Proof.
+  intros Hc. assert (P : forall f, per_conv c f = true).
+  { unfold all_per_conversion in Hc. apply andb_prop in Hc. destruct Hc as [Hc H3]. apply andb_prop in Hc.
+    destruct Hc as [H1 H2]. intros []; assumption. }
+  induction asks as [|[f b] r IH]; intros loc g1 g2; simpl; auto.
+  rewrite (P f).
+  specialize (IH (ct_bump f b loc) g1 g2).
+  destruct (fresh_all c r (ct_bump f b loc, g1)) as [ns1 st1], (fresh_all c r (ct_bump f b loc, g2)) as [ns2 st2].
+  simpl in *. now rewrite IH.
+Qed.
+
+Lemma convert_fst c r g : fst (convert c r g) = fst (fresh_all c r ([], g)).
+Proof. unfold convert. destruct (fresh_all c r ([], g)) as [ns [l g']]. reflexivity. Qed.
+
+Theorem names_history_independent_if c : all_per_conversion c = true ->
+  forall h1 h2 r, names_after c h1 r = names_after c h2 r.
+Proof.
+  intros Hc h1 h2 r. unfold names_after. rewrite !convert_fst. now apply fresh_all_local.
+Qed.
+
+(* ... and only if: one process-wide family is enough to make the second conversion see the first *)
+Theorem names_history_dependent_unless c : all_per_conversion c = false ->
+  exists h1 h2 r, names_after c h1 r <> names_after c h2 r.
+Proof.
+  destruct c as [[] [] []]; simpl; intro H; try discriminate.
+  all: timeout 20 (first
+             [ exists [], [[(Func, "f"%string)]], [(Func, "f"%string)]; vm_compute; discriminate
+             | exists [], [[(Context, "x"%string)]], [(Context, "x"%string)]; vm_compute; discriminate
+             | exists [], [[(Builder, "x"%string)]], [(Builder, "x"%string)]; vm_compute; discriminate ]).
+Qed.
+
+Theorem names_history_independent_iff c :
+  all_per_conversion c = true <-> (forall h1 h2 r, names_after c h1 r = names_after c h2 r).
+Proof.
+  split; [apply names_history_independent_if|].
+  intro H. destruct (all_per_conversion c) eqn:E; auto.
+  destruct (names_history_dependent_unless c E) as (h1 & h2 & r & N). exfalso. apply N, H.
+Qed.
+
+(* the scopes found in the unchanged tree (re-established by the harness tie on every run) *)
+Definition jax2onnx_scopes : scopes := mkScopes true true true.
+
+Theorem names_history_independent : forall h1 h2 r,
+  names_after jax2onnx_scopes h1 r = names_after jax2onnx_scopes h2 r.
+Proof. apply names_history_independent_if. reflexivity. Qed.
+
+(* what a module-global function-name counter WOULD do (not the case in the unchanged tree):
+   the 2-conversion witness *)
+Theorem names_history_independent_refuted_for_global_func_counter :
+  exists h1 h2 r, names_after (mkScopes true true false) h1 r <> names_after (mkScopes true true false) h2 r.
+Proof. apply names_history_dependent_unless. reflexivity. Qed.
+
+(* non-vacuity: names really are produced, and repeat within one conversion *)
+Example names_example :
+  names_after jax2onnx_scopes [[(Builder, "Add"%string)]] [(Builder, "Add"%string); (Builder, "Add"%string); (Func, "f"%string)]
+  = [(Builder, "Add"%string, 0); (Builder, "Add"%string, 1); (Func, "f"%string, 0)].
+Proof. reflexivity. Qed.
+
+(* ------------------------------------------------------------------------------------------- *)
+(** * C. the lowering-signature cache is transparent                                            *)
+(* ------------------------------------------------------------------------------------------- *)
+(* lowering_dispatch._lower_accepts_params: cache_key = the function object; table.get(key) is used
+   when present, else the answer is computed - a function [f] of the key alone (the parameter list of
+   the function object) - and stored.  Keys are held by the dict, so an id() cannot be reused while
+   its entry exists. *)
+Section Memo.
+Variable V : Type.
+Variable f : nat -> V.
+
+Fixpoint memo_get (k : nat) (t : list (nat * V)) : option V :=
+  match t with [] => None | (k', v) :: r => if Nat.eqb k k' then Some v else memo_get k r end.
+Definition memo_call (k : nat) (t : list (nat * V)) : V * list (nat * V) :=
+  match memo_get k t with Some v => (v, t) | None => (f k, (k, f k) :: t) end.
+Definition memo_consistent (t : list (nat * V)) : Prop := forall k v, memo_get k t = Some v -> v = f k.
+
+Fixpoint memo_calls (ks : list nat) (t : list (nat * V)) : list V * list (nat * V) :=
+  match ks with
+  | [] => ([], t)
+  | k :: r => let '(v, t1) := memo_call k t in let '(vs, t2) := memo_calls r t1 in (v :: vs, t2)
+  end.
+
+Lemma memo_call_sound k t : memo_consistent t ->
+  fst (memo_call k t) = f k /\ memo_consistent (snd (memo_call k t)).
+Proof.
+  intro H. unfold memo_call. destruct (memo_get k t) as [v|] eqn:E; simpl.
+  - split; [now apply H | exact H].
+  - split; [reflexivity|]. intros k' v'. simpl. destruct (Nat.eqb k' k) eqn:Ek.
+    + apply Nat.eqb_eq in Ek. subst. intro X. now injection X as <-.
+    + apply H.
+Qed.
+
+(* whatever earlier conversions left in the (consistent) table, every call answers f *)
+Theorem signature_cache_transparent : forall ks t, memo_consistent t ->
+  fst (memo_calls ks t) = map f ks /\ memo_consistent (snd (memo_calls ks t)).
+Proof.
+  induction ks as [|k r IH]; intros t H; simpl; [auto|].
+  destruct (memo_call_sound k t H) as [E C].
+  destruct (memo_call k t) as [v t1]; simpl in *.
+  destruct (IH t1 C) as [E' C']. destruct (memo_calls r t1) as [vs t2]; simpl in *.
+  split; [now rewrite E, E' | exact C'].
+Qed.
+
+Lemma memo_empty_consistent : memo_consistent [].
+Proof. intros k v H. discriminate. Qed.
+
+(* in particular the answers do not depend on the history that filled the table *)
+Corollary signature_cache_history_independent : forall hist1 hist2 ks,
+  fst (memo_calls ks (snd (memo_calls hist1 []))) = fst (memo_calls ks (snd (memo_calls hist2 []))).
+Proof.
+  intros h1 h2 ks.
+  destruct (signature_cache_transparent h1 [] memo_empty_consistent) as [_ C1].
+  destruct (signature_cache_transparent h2 [] memo_empty_consistent) as [_ C2].
+  destruct (signature_cache_transparent ks _ C1) as [E1 _].
+  destruct (signature_cache_transparent ks _ C2) as [E2 _]. congruence.
+Qed.
+End Memo.
